@@ -57,6 +57,17 @@ func vh_AE() {
 		r.operationManager.pendingReplicated[n.log.LastIndex()+1] = chRep
 		r.operationManager.pendingReadOnly[&Operation{OperationType: LinearizableReadOnly}] = chRO
 	}
+	// C11.reset: snapshot files that are open when the node changes role. A leader may be sending a snapshot
+	// to a follower; any other node may hold a partially received one.
+	var sendFile, recvFile *vSnapFile
+	if r.state == Leader {
+		sendFile = &vSnapFile{store: n.snaps, rec: &vSnapRec{visible: true}}
+		r.followers["n2"].snapshot = sendFile
+	} else if vNondetBool("partial-snapshot") {
+		pf, _ := n.snaps.NewSnapshotFile(vNondetU64("partial.label"), vNondetU64("partial.term"), []byte{0})
+		recvFile = pf.(*vSnapFile)
+		r.snapshot = pf
+	}
 	pre := vSnapshotNode(n)
 	preCfg := r.configuration
 	preCommitted := r.committedConfiguration
@@ -105,6 +116,19 @@ func vh_AE() {
 		vCover("stale-futures-failed")
 		vAssert(vAnd(len(chRep) == 1, len(chRO) == 1), "C03.stale-pending-futures-failed-on-new-term-or-step-down")
 		vAssert(vAnd(len(r.operationManager.pendingReplicated) == 0, len(r.operationManager.pendingReadOnly) == 0), "C03.tables-reset")
+	}
+	becameFollower := post.term > pre.term || (req.Term == pre.term && (pre.state == Candidate || pre.state == PreCandidate))
+	if sendFile != nil && post.state != Leader {
+		vAssert(vAnd(sendFile.closed, r.followers["n2"] == nil || r.followers["n2"].snapshot == nil), "C11.deposed-leader-closes-the-snapshot-it-was-sending")
+	}
+	if recvFile != nil {
+		if becameFollower {
+			vCover("partial-snapshot-discarded")
+			vAssert(vAnd(recvFile.closed, vAnd(recvFile.rec.discarded, !recvFile.rec.visible)), "C11.partial-snapshot-discarded-on-new-term-or-step-down")
+			vAssert(r.snapshot == nil, "C11.partial-snapshot-discarded-on-new-term-or-step-down")
+		} else {
+			vAssert(vAnd(!recvFile.closed, r.snapshot == SnapshotFile(recvFile)), "C11.partial-snapshot-kept-within-the-term")
+		}
 	}
 	if pre.state == Leader && post.state == Leader {
 		vAssert(vAnd(len(chRep) == 0, len(chRO) == 0), "C03.pending-untouched-while-leader")
